@@ -674,4 +674,151 @@ def Res.err? {α : Type} (r : Res α) : Option Err :=
   | .ok _ => none
   | .error e => some e
 
+/-! ## loading: which fetches happen -/
+
+/-- the fetcher can deliver this URL -/
+def avail (vfs : Vfs) (e : Who × Str) : Bool := (vfsLookup vfs e.2).isSome
+
+mutual
+/-- the import edges of a loaded tree whose target was found, in the order they were followed -/
+def edges (who : Who) : Rule → FLog
+  | .imp _ _ true th sh => (who, th) :: edgesL who sh
+  | _ => []
+def edgesL (who : Who) : List Rule → FLog
+  | [] => []
+  | r :: rs => edges who r ++ edgesL who rs
+end
+
+theorem twice_cases (a : Res Rule) :
+    twice a = a ∨ ∃ h m t s, a.val = .ok (.imp h m false t s) ∧ twice a = ⟨a.val, a.log ++ a.log⟩ := by
+  unfold twice
+  split
+  · rename_i h m t s heq
+    exact Or.inr ⟨h, m, t, s, heq, rfl⟩
+  · exact Or.inl rfl
+
+theorem twice_edges (vfs : Vfs) (who : Who) (a : Res Rule)
+    (h : ∀ r, a.val = .ok r → a.log.filter (avail vfs) = edges who r) :
+    ∀ r, (twice a).val = .ok r → (twice a).log.filter (avail vfs) = edges who r := by
+  intro r hr
+  rcases twice_cases a with e | ⟨h1, m1, t1, s1, heq, e⟩
+  · rw [e] at hr ⊢; exact h r hr
+  · rw [e] at hr ⊢
+    simp only at hr ⊢
+    have := h _ heq
+    rw [heq] at hr
+    cases hr
+    simp only [List.filter_append, this]
+    simp [edges]
+
+theorem loadWith_edges (vfs : Vfs) (who : Who) (imp : Str → Str → Res Rule)
+    (h : ∀ hr m r, (imp hr m).val = .ok r → (imp hr m).log.filter (avail vfs) = edges who r) :
+    ∀ (raw rules : Sheet), (loadWith imp raw).val = .ok rules →
+      (loadWith imp raw).log.filter (avail vfs) = edgesL who rules
+  | [], rules, hv => by
+    simp [loadWith] at hv ⊢; subst hv; rfl
+  | .imp hr m f t s :: rs, rules, hv => by
+    simp only [loadWith] at hv ⊢
+    split at hv
+    · simp at hv
+    · rename_i r hr1
+      split at hv
+      · simp at hv
+      · rename_i q hq
+        simp at hv; subst hv
+        simp only [List.filter_append, h _ _ _ hr1, loadWith_edges vfs who imp h rs q hq, edgesL]
+  | .charset _ :: rs, rules, hv => by
+    simp only [loadWith] at hv ⊢
+    split at hv
+    · simp at hv
+    · rename_i q hq
+      simp at hv; subst hv
+      simp [loadWith_edges vfs who imp h rs q hq, edgesL, edges]
+  | .comment _ :: rs, rules, hv => by
+    simp only [loadWith] at hv ⊢
+    split at hv
+    · simp at hv
+    · rename_i q hq
+      simp at hv; subst hv
+      simp [loadWith_edges vfs who imp h rs q hq, edgesL, edges]
+  | .ns _ _ :: rs, rules, hv => by
+    simp only [loadWith] at hv ⊢
+    split at hv
+    · simp at hv
+    · rename_i q hq
+      simp at hv; subst hv
+      simp [loadWith_edges vfs who imp h rs q hq, edgesL, edges]
+  | .style _ _ :: rs, rules, hv => by
+    simp only [loadWith] at hv ⊢
+    split at hv
+    · simp at hv
+    · rename_i q hq
+      simp at hv; subst hv
+      simp [loadWith_edges vfs who imp h rs q hq, edgesL, edges]
+  | .media _ _ :: rs, rules, hv => by
+    simp only [loadWith] at hv ⊢
+    split at hv
+    · simp at hv
+    · rename_i q hq
+      simp at hv; subst hv
+      simp [loadWith_edges vfs who imp h rs q hq, edgesL, edges]
+  | .page _ _ _ :: rs, rules, hv => by
+    simp only [loadWith] at hv ⊢
+    split at hv
+    · simp at hv
+    · rename_i q hq
+      simp at hv; subst hv
+      simp [loadWith_edges vfs who imp h rs q hq, edgesL, edges]
+  | .fontface _ :: rs, rules, hv => by
+    simp only [loadWith] at hv ⊢
+    split at hv
+    · simp at hv
+    · rename_i q hq
+      simp at hv; subst hv
+      simp [loadWith_edges vfs who imp h rs q hq, edgesL, edges]
+  | .unknown _ :: rs, rules, hv => by
+    simp only [loadWith] at hv ⊢
+    split at hv
+    · simp at hv
+    · rename_i q hq
+      simp at hv; subst hv
+      simp [loadWith_edges vfs who imp h rs q hq, edgesL, edges]
+
+/-- one `_setHref`: the fetcher calls for URLs the fetcher can deliver are exactly the found import edges below it -/
+theorem setHref_edges (vfs : Vfs) (who : Who) : ∀ (fuel : Nat) (chain : List Str) (href media : Str) (r : Rule),
+    (setHref fuel vfs who chain href media).val = .ok r →
+    (setHref fuel vfs who chain href media).log.filter (avail vfs) = edges who r
+  | 0, chain, href, media, r, hv => by simp [setHref] at hv
+  | fuel + 1, chain, href, media, r, hv => by
+    unfold setHref at hv ⊢
+    cases chain with
+    | nil => simp at hv
+    | cons parent rest =>
+      simp only at hv ⊢
+      cases hj : urljoin parent href with
+      | error e => simp [hj] at hv
+      | ok full =>
+        simp only [hj] at hv ⊢
+        by_cases hc : full ∈ parent :: rest
+        · simp only [hc, ↓reduceIte] at hv ⊢
+          cases hv
+          simp [notLoaded, edges]
+        · simp only [hc, ↓reduceIte] at hv ⊢
+          cases hl : vfsLookup vfs full with
+          | none =>
+            simp only [hl] at hv ⊢
+            cases hv
+            simp [notLoaded, edges, avail, hl]
+          | some raw =>
+            simp only [hl] at hv ⊢
+            split at hv
+            · simp at hv
+            · rename_i rules hr
+              cases hv
+              have ih := loadWith_edges vfs who (fun h m => twice (setHref fuel vfs who (full :: parent :: rest) h m))
+                (fun h m r' hr' => twice_edges vfs who _ (fun r'' h'' => setHref_edges vfs who fuel _ h m r'' h'') r' hr')
+                raw rules hr
+              simp [avail, hl, edges, ih]
+
+
 end CssVerif.Urls
